@@ -59,7 +59,7 @@ fn main() {
             "holder-seq" => holder::replay_seq(&sc),
             "holder-loser-window" => holder::replay_loser_window(&sc),
             "macro" => macros::replay(&sc),
-            "queue" | "queue-capacity" | "queue-blocking-emit" | "queue-stats" | "queue-sampler" | "flush-delegation" | "queue-second-consumer" | "queue-drop-calls-sink" => queue::replay(&sc),
+            "queue" | "queue-capacity" | "queue-blocking-emit" | "queue-stats" | "queue-sampler" | "flush-delegation" | "queue-second-consumer" | "queue-drop-calls-sink" | "queue-emit-calls-sink" => queue::replay(&sc),
             _ => json!({"error": format!("unknown scenario kind {}", kind)}),
         };
         outs.push(out);
